@@ -58,12 +58,12 @@ impl BodyReader {
 //@@ end
 
 //@@ fn src/parsing/body_reader.rs impl~BodyReader new props=C01,C03,C05
-//@@ rw R1
+//@@ rw R1 #*
 reader.take(
 //@@ =>
 vp_take(reader,
-//@@ splice before
-Ok(BodyReader::Length(
+//@@ splice after
+if let Some(val) = is_content_length(headers)? {
 //@@ with
             proof {
                 let vals = field_vals(headers, cl_name());
